@@ -208,9 +208,11 @@ def lower (s : String) : String := s.toLower
 def sameLink (l1 l2 : Link) : Bool :=
   (l1.a == l2.a && l1.z == l2.z) || (l1.a == l2.z && l1.z == l2.a)
 
-/-- is there another row (different position) equal to row i? -/
+/-- is there a pair of rows at different positions that are the same link?  (the code's double loop
+    `for l1 in links: for l2 in links: if l1 is not l2 and l1 == l2`; `sameLink` is symmetric, so
+    looking at ordered pairs is enough) -/
 def hasDuplicateLink (links : List Link) : Bool :=
-  (links.zipIdx).any (fun li => (links.zipIdx).any (fun lj => li.2 != lj.2 && sameLink li.1 lj.1))
+  !decide (links.Pairwise (fun l1 l2 => sameLink l1 l2 = false))
 
 def cities (nodes : List Node) : List String := nodes.map (·.city)
 
@@ -229,9 +231,9 @@ def findNode (nodes : List Node) (c : String) : Option Node := nodes.find? (fun 
 def linkExists (links : List Link) (a z : String) : Bool :=
   links.any (fun l => (l.a == a && l.z == z) || (l.a == z && l.z == a))
 
-/-- number of earlier-or-equal rows with the same (a, z): a duplicate is a row with an earlier twin -/
+/-- a duplicate Eqpt row is a row with an earlier twin (same Node A and Node Z) -/
 def hasDuplicateEqpt (eqpts : List Eqpt) : Bool :=
-  (eqpts.zipIdx).any (fun ei => (eqpts.zipIdx).any (fun ej => ej.2 < ei.2 && ei.1.a == ej.1.a && ei.1.z == ej.1.z))
+  !decide (eqpts.Pairwise (fun e1 e2 => (e1.a == e2.a && e1.z == e2.z) = false))
 
 def check (c : Bool) (e : XErr) : XR Unit := if c then .error e else .ok ()
 
